@@ -287,6 +287,10 @@ def rule_helper_contracts():
         c = method_contract(PPF, PPC, meth, params, ("bool", "int"))
         c.rais("CParsingError")
         c.ens(STEP, "monotone")
+        if meth == "_just_identifier":
+            # #ifdef / #ifndef / #undef take a name: the checks that run afterwards (include-guard
+            # validation, C14) read its spelling
+            c.ens("kind_in(context, index, 'IDENTIFIER')", "argument_is_an_identifier")
         for k, sp in loops.items():
             c.loop(k, **sp)
         out[PPC + "." + meth] = c
@@ -398,6 +402,9 @@ def directive_contracts(repo):
             writes(*PREPROC, emits=True)(c)        # may report PREPROC_BAD_*
             if b.name == "check_define":
                 c.loop(0, invariant=["index >= old(index)"], variant="ntok(context) - index", pure=True)
+                c.ens("kind_in(context, index, 'IDENTIFIER')", "macro_name_is_an_identifier")
+            if b.name in ("check_ifdef", "check_ifndef", "check_undef"):
+                c.ens("kind_in(context, index, 'IDENTIFIER')", "argument_is_an_identifier")
             out[PPC + "." + b.name] = c
     return out
 
@@ -405,9 +412,24 @@ def directive_contracts(repo):
 # ------------------------------------------------------------------------------ primaries
 def primary_contracts():
     out = {}
+    def control_extra(c):
+        not_empty_line(c)
+        may_raise(c)
+        writes(SUB)(c)
+        # a control statement whose body is empty (`while (x) ;`, `else ;`, the semicolon possibly on
+        # the next line) is complete: it opens no scope for a body (C07: the nesting depth is back at
+        # file level after each function); switch / case / default always open one
+        c.forall_const("q", "int")
+        # the lexer never produces an ESCAPED_NEWLINE token (finite check on Lexer's Token(...) calls, C07)
+        c.req("forall(0, ntok(context), lambda k: not kind_in(context, k, 'ESCAPED_NEWLINE'))")
+        c.ens("implies(result[0] is True and not kind_in(context, e, ('SWITCH', 'CASE', 'DEFAULT')) and "
+              "q >= 0 and q < result[1] and kind_in(context, q, 'SEMI_COLON') and "
+              "forall(q + 1, result[1], lambda j: kind_in(context, j, ('SPACE', 'TAB', 'NEWLINE'))), "
+              "implies(isnone(old(context.sub)), isnone(context.sub)))", "empty_body_opens_no_scope")
     out["IsControlStatement"] = progress_contract(
-        "is_control_statement.py", "IsControlStatement", lambda c: (not_empty_line(c), may_raise(c), writes(SUB)(c)),
-        {0: fwd(lo="1"), 1: fwd(lo="1")})
+        "is_control_statement.py", "IsControlStatement", control_extra,
+        {0: fwd(lo="1"),
+         1: fwd(lo="1", invariant=["i >= e + 1", "forall(e + 1, i, lambda k: kind_in(context, k, ('TAB', 'SPACE')))"])})
     out["IsAssignation"] = progress_contract(
         "is_assignation.py", "IsAssignation", may_raise, {0: fwd("tmp"), 1: fwd(lo="1")})
     out["IsEnumVarDecl"] = progress_contract(
